@@ -106,6 +106,8 @@ FAMILIES = {
     "component_chain": lambda n: _prog(["x = " + "%".join("c%d(i)" % i for i in range(n))]),
     "format_groups": lambda n: _prog(["10 format(" + "2(" * n + "i2" + ")" * n + ")"]),
     "nested_derived_type_params": lambda n: _prog(["type(t(" * 1 + ", ".join("k%d = %d" % (i, i) for i in range(n)) + ")) :: x"]),
+    "nested_and_not": lambda n: _prog(["l = " + "a .and. .not. (" * n + "z" + ")" * n]),
+    "nested_or_not_relational": lambda n: _prog(["if (" + "i > 0 .or. .not. (" * n + "z" + ")" * n + ") x = 1"]),
     "nested_keyword_arg_refs": lambda n: _prog(["x = " + "f(k = " * n + "a" + ")" * n]),
     "nested_structure_constructors": lambda n: _prog(["x = " + "t(1, c = " * n + "a" + ")" * n]),
     "nested_component_procedure_refs": lambda n: _prog(["x = " + "obj%get(key = " * n + "a" + ")" * n]),
@@ -144,6 +146,8 @@ EXPR_WRAPS = ["(-(%s))", "(-%s)", "((%s))", "(%s + b)", "(a * %s)", "(.inv. %s)"
               "(-(-%s))" if False else "(- %s + 1)",
               # reference-shaped wrappers that are linear on the pinned tree (keyword arguments, intrinsic names,
               # component procedures, substrings); plain 'f(%s)' / 'arr(i, %s)' are the recorded exponential finding
+              "(l .and. .not. %s)", "(l .or. .not. %s)", "(p .eqv. .not. %s)", "(i > 0 .and. .not. %s)", "(a - (-%s))",
+              "(s // trim(%s))", "(x ** (-%s))",
               "f(k = %s)", "t(1, c = %s)", "a%%b(%s)", "obj%%get(key = %s)", "s(1)(%s:2)", "max(1, %s)", "sin(%s)",
               "real(%s, kind = 8)", "c(%s)%%d"]
 
